@@ -34,6 +34,7 @@ MANIFEST = dict(
     level_text=("Coq theorems relating the executable model of the btor2 reader (Model/Btor2Parse.v) to a reference interpreter for btor2 written from the format "
                 "definition (Spec/Btor2Sem.v), for all texts and all valuations. Tie to /repo: on every run the real parse_str result is evaluated by the extracted "
                 "Spec/Eval.v and compared with the extracted reference interpreter run on the text; the model is compared with the implementation structurally."),
-    level_note=("Trusted: Coq kernel; Btor2Sem.v as the meaning of btor2; hand-written model tied by differential execution. Three classes of ill-sorted texts are "
+    level_note=("For the repaired reader (code_variant = Fix, patches/000N-fix-btor2-*.diff) C08_rejects_ill_formed_fix extends the rejection theorem to zero-width sorts and "
+                "non-Boolean bad/constraint lines. Trusted: Coq kernel; Btor2Sem.v as the meaning of btor2; hand-written model tied by differential execution. Three classes of ill-sorted texts are "
                 "accepted and well-formed wide constants are rejected: recorded as known findings."),
 )
